@@ -12,10 +12,17 @@ from common import hx, unhx
 
 GROUP = "geometry"
 FILES = ["gen/Gen_geometry.v", "Model_density.v", "Proofs_geometry.v", "Proofs_density.v",
-         "Entry_geometry.v", "Extract_geometry.v"]
+         "Model_poles_axes.v", "Proofs_poles_axes.v", "Entry_geometry.v", "Extract_geometry.v"]
 PROP = "Properties/C20.v"
 AXES = ("xy", "xz", "yx", "yz", "zx", "zy")
 KERNELS = ("kamb_count", "schmidt_count", "exponential_kamb", "linear_inverse_kamb", "square_inverse_kamb")
+SPELLINGS = tuple(sp for a, b in AXES for sp in (a + b, a.upper() + b, a + b.upper(), a.upper() + b.upper()))
+# reference-axes strings outside the six legal ones (ASCII; what the source does with them is
+# modelled by ref_axes_read in coq/Model_poles_axes.v and compared)
+ILLEGAL = ("xx", "yy", "zz", "XX", "xX", "Zz", "xzz", "xz ", "xzx", "XZz", "yxzz", " xz", "xyz", "XYZ", "zyx", "x", "Z",
+           "", "ab", "xw", "wz", "xa", "x z", "x,z", "xz\n", "\txz", "1", "12", "++", "x-z", "x+y", "XZ ", "Xx", "zZ")
+HKL_AS = ("array", "list", "tuple", "intlist", "inttuple", "intarray", "f32", "strided", "readonly", "alias_row")
+ORI_AS = ("c", "f32", "fortran", "stride2", "reversed", "transposed_view", "sub4x4", "readonly")
 HKLS = ([1, 0, 0], [0, 1, 0], [0, 0, 1], [1, 1, 0], [1, 1, 1], [0, 1, 1], [1, 0, 1], [2, 1, 0], [-1, 1, 0], [1, -2, 3])
 
 
@@ -94,6 +101,146 @@ def gen_poles(rng, tier):
     return cases
 
 
+def canon(hkl, A, o):
+    """canonical float64 values of a poles case for the chosen input representation"""
+    A = np.array(A, dtype=float)
+    hkl = np.array(hkl, dtype=float)
+    if o.get("ori_as") == "f32":
+        A = A.astype(np.float32).astype(float)
+    if o.get("hkl_as") == "alias_row":
+        hkl = A[0, 0].copy()
+    elif o.get("hkl_as") == "f32":
+        hkl = hkl.astype(np.float32).astype(float)
+    return hkl, A
+
+
+def gen_poles_options(rng, tier):
+    """The option space of geometry.poles beyond six lower-case strings x float64 arrays:
+    every case spelling, illegal strings, hkl / orientations given as lists, tuples, ints,
+    float32, views, read-only or aliasing arrays, default arguments, empty stacks, extreme
+    magnitudes, zero directions, and calls preceded by other calls (prelude)."""
+    cases = []
+    small = (1, 2, 3, 4, 17)
+
+    def add(ax, hkl, n=None, A=None, family="", **o):
+        if A is None:
+            A = rotations(rng, int(n))
+        hkl, A = canon(hkl, A, o)
+        o = {k: v for k, v in o.items() if v is not None}
+        o["family"] = family
+        cases.append(("poles", ax, hkl, A, o))
+
+    def some_hkl():
+        return list(HKLS[int(rng.integers(0, len(HKLS)))])
+
+    rep = 3 if tier == "quick" else 12
+    # (a) all 24 spellings, each with randomly chosen input representations
+    for sp in SPELLINGS:
+        for _ in range(rep):
+            n = int(small[int(rng.integers(0, len(small)))])
+            add(sp, some_hkl(), n=n, family="spelling",
+                hkl_as=str(HKL_AS[int(rng.integers(0, len(HKL_AS)))]), ori_as=str(ORI_AS[int(rng.integers(0, len(ORI_AS)))]),
+                axes_as=str(rng.choice(["kw", "pos"])))
+    # (b) every input representation at least once with an upper-case and a lower-case string
+    for ha in HKL_AS:
+        add("XZ", some_hkl(), n=3, family="hkl_as", hkl_as=ha)
+        add("zy", some_hkl(), n=2, family="hkl_as", hkl_as=ha, ori_as="f32")
+    for oa in ORI_AS:
+        add("Yx", some_hkl(), n=3, family="ori_as", ori_as=oa)
+        add("xy", rng.normal(size=3), n=4, family="ori_as", ori_as=oa, hkl_as="list")
+    add("yz", [1.0, 0.0, 0.0], A=np.eye(3)[None].repeat(2, axis=0), family="ori_as", ori_as="int", hkl_as="list")
+    # (c) the default arguments: ref_axes = "xz", hkl = [1, 0, 0]
+    add("xz", [1, 0, 0], n=5, family="defaults", hkl_as="default", axes_as="default")
+    add("xz", [0, 1, 1], n=5, family="defaults", axes_as="default")
+    add("ZX", [1, 0, 0], n=5, family="defaults", hkl_as="default")
+    add("xz", [1, 0, 0], n=1, family="defaults", hkl_as="default", axes_as="default", ori_as="f32")
+    # (d) illegal strings (fixed list + random ones over a small alphabet)
+    for sp in ILLEGAL:
+        add(sp, some_hkl(), n=2, family="illegal")
+    alphabet = "xyzXYZ w"
+    for _ in range(20 if tier == "quick" else 200):
+        k = int(rng.integers(0, 5))
+        add("".join(alphabet[int(i)] for i in rng.integers(0, len(alphabet), size=k)), some_hkl(), n=2, family="random-string")
+    # (e) boundaries: empty stack, zero direction, signed zeros, extreme magnitudes
+    for sp in ("xz", "YX", "xx", "ab"):
+        add(sp, [1, 0, 0], A=np.empty((0, 3, 3)), family="empty")
+    add("Xy", [0.0, 0.0, 0.0], n=2, family="zero-hkl")
+    add("zY", [-0.0, 0.0, 1.0], n=2, family="signed-zero")
+    for e in (-150, -100, -20, 20, 100, 150, 200):
+        add(str(rng.choice(SPELLINGS)), np.array(some_hkl(), dtype=float) * 10.0 ** e, n=2, family="magnitude")
+        add(str(rng.choice(SPELLINGS)), some_hkl(), A=rotations(rng, 2) * 10.0 ** (e / 2), family="magnitude")
+    # (f) the measured call preceded by other calls (state carried between calls?)
+    for _ in range(8 if tier == "quick" else 60):
+        pre = [[str(rng.choice(SPELLINGS + ILLEGAL[:12])), some_hkl()] for _ in range(int(rng.integers(1, 4)))]
+        add(str(rng.choice(SPELLINGS)), some_hkl(), n=int(rng.integers(1, 5)), family="prelude", prelude=pre,
+            hkl_as=str(rng.choice(["list", "array"])))
+    # (g) larger batches with an upper-case string
+    add("XZ", [1, 1, 0], n=1000, family="batch")
+    add("zX", [2, 1, 0], n=257, family="batch", ori_as="stride2", hkl_as="intlist")
+    order = rng.permutation(len(cases))   # interleave the strings: call order is part of the input
+    return [cases[int(i)] for i in order]
+
+
+# inputs for which poles has no model (wrong container / shape / dtype, non-finite entries,
+# non-ASCII or non-str ref_axes): the outcome is recorded; returning finite vectors that are
+# not unit vectors is reported
+def malformed_calls(rng):
+    A = rotations(rng, 4)
+    e = [1.0, 0.0, 0.0]
+    return [
+        ("orientations (3,3)", lambda g: g.poles(A[0], hkl=e)),
+        ("orientations (1,n,3,3)", lambda g: g.poles(A[None], hkl=e)),
+        ("orientations list", lambda g: g.poles(A.tolist(), hkl=e)),
+        ("orientations (n,3,2)", lambda g: g.poles(A[:, :, :2], hkl=e)),
+        ("orientations (n,2,3)", lambda g: g.poles(A[:, :2, :], hkl=e)),
+        ("orientations (n,2,3) hkl len 2", lambda g: g.poles(A[:, :2, :], hkl=[1.0, 0.0])),
+        ("orientations int, hkl int", lambda g: g.poles(np.eye(3, dtype=int)[None], hkl=[1, 0, 0])),
+        ("orientations nan", lambda g: g.poles(np.full((1, 3, 3), np.nan), hkl=e)),
+        ("orientations inf", lambda g: g.poles(np.full((1, 3, 3), np.inf), hkl=e)),
+        ("orientations float16", lambda g: g.poles(A.astype(np.float16), hkl=e)),
+        ("hkl len 2", lambda g: g.poles(A, hkl=[1.0, 0.0])),
+        ("hkl len 4", lambda g: g.poles(A, hkl=[1.0, 0.0, 0.0, 0.0])),
+        ("hkl scalar int", lambda g: g.poles(A, hkl=1)),
+        ("hkl scalar float", lambda g: g.poles(A, hkl=1.0)),
+        ("hkl (3,1)", lambda g: g.poles(A, hkl=np.array([[1.0], [0.0], [0.0]]))),
+        ("hkl (1,3)", lambda g: g.poles(A, hkl=np.array([[1.0, 0.0, 0.0]]))),
+        ("hkl None", lambda g: g.poles(A, hkl=None)),
+        ("hkl str", lambda g: g.poles(A, hkl="100")),
+        ("hkl bool", lambda g: g.poles(A, hkl=[True, False, False])),
+        ("hkl nan", lambda g: g.poles(A, hkl=[np.nan, 0.0, 0.0])),
+        ("ref_axes None", lambda g: g.poles(A, ref_axes=None, hkl=e)),
+        ("ref_axes tuple", lambda g: g.poles(A, ref_axes=("x", "z"), hkl=e)),
+        ("ref_axes list", lambda g: g.poles(A, ref_axes=["X", "z"], hkl=e)),
+        ("ref_axes bytes", lambda g: g.poles(A, ref_axes=b"xz", hkl=e)),
+        ("ref_axes int", lambda g: g.poles(A, ref_axes=2, hkl=e)),
+        ("ref_axes non-ASCII", lambda g: g.poles(A, ref_axes="x\u017d", hkl=e)),
+        ("ref_axes fullwidth", lambda g: g.poles(A, ref_axes="\uff38\uff3a", hkl=e)),
+    ]
+
+
+def run_malformed(chk):
+    import pydrex.geometry as geo
+    rng = np.random.default_rng([chk.seed, 2020])
+    out, bad = {}, []
+    for name, f in malformed_calls(rng):
+        try:
+            with warnings.catch_warnings():
+                warnings.simplefilter("ignore")
+                r = f(geo)
+            v = np.stack([np.asarray(t) for t in r], axis=1)
+            if np.iscomplexobj(v) or v.size == 0 or not np.all(np.isfinite(v)):
+                out[name] = "returns non-finite/empty/complex"
+            elif np.abs(np.linalg.norm(v.astype(float), axis=1) - 1).max() <= 1e-3:
+                out[name] = "returns unit vectors"
+            else:
+                out[name] = "returns finite NON-unit vectors"
+                bad.append(name)
+        except Exception as e:  # noqa: BLE001
+            out[name] = "raises " + type(e).__name__
+    chk.cov["poles_malformed_outcomes"] = out
+    return bad
+
+
 def gen_density(rng, tier):
     cases = []
 
@@ -139,12 +286,139 @@ def gen_density(rng, tier):
 
 def gen_cases(chk, tier):
     rng = np.random.default_rng(chk.seed)
-    return gen_points(rng, tier) + gen_angles(rng, tier) + gen_lambert(rng, tier) + gen_poles(rng, tier) + gen_density(rng, tier)
+    rng2 = np.random.default_rng([chk.seed, 20])  # the option-space families have their own stream: the older cases stay as they were
+    return (gen_points(rng, tier) + gen_angles(rng, tier) + gen_lambert(rng, tier) + gen_poles(rng, tier)
+            + gen_poles_options(rng2, tier) + gen_density(rng, tier))
 
 
 # --------------------------------------------------------------------------
 # implementation / model calls
 # --------------------------------------------------------------------------
+def popts(c):
+    return c[4] if len(c) > 4 and c[4] else {}
+
+
+def build_call(c):
+    """(orientations, args, kwargs) of the poles call of case c in the representation its
+    options ask for; the canonical float64 values are c[2] (hkl) and c[3] (orientations)"""
+    o = popts(c)
+    A = np.array(c[3], dtype=float)
+    n = len(A)
+    oa = o.get("ori_as", "c")
+    if oa == "c":
+        A_in = A.copy()
+    elif oa == "f32":
+        A_in = A.astype(np.float32)
+    elif oa == "int":
+        A_in = A.astype(int)
+    elif oa == "fortran":
+        A_in = np.asfortranarray(A)
+    elif oa == "stride2":
+        big = np.full((2 * n, 3, 3), 7.0)
+        big[::2] = A
+        A_in = big[::2]
+    elif oa == "reversed":
+        A_in = A[::-1].copy()[::-1]
+    elif oa == "transposed_view":
+        A_in = A.transpose(0, 2, 1).copy().transpose(0, 2, 1)
+    elif oa == "sub4x4":
+        big = np.full((n, 4, 4), 7.0)
+        big[:, :3, :3] = A
+        A_in = big[:, :3, :3]
+    elif oa == "readonly":
+        A_in = A.copy()
+        A_in.setflags(write=False)
+    else:
+        raise ValueError(oa)
+    hkl = np.array(c[2], dtype=float)
+    ha = o.get("hkl_as", "array")
+    if ha == "array":
+        h_in = hkl.copy()
+    elif ha == "list":
+        h_in = [float(v) for v in hkl]
+    elif ha == "tuple":
+        h_in = tuple(float(v) for v in hkl)
+    elif ha == "intlist":
+        h_in = [int(v) for v in hkl]
+    elif ha == "inttuple":
+        h_in = tuple(int(v) for v in hkl)
+    elif ha == "intarray":
+        h_in = hkl.astype(int)
+    elif ha == "f32":
+        h_in = hkl.astype(np.float32)
+    elif ha == "strided":
+        big = np.full(6, 7.0)
+        big[::2] = hkl
+        h_in = big[::2]
+    elif ha == "readonly":
+        h_in = hkl.copy()
+        h_in.setflags(write=False)
+    elif ha == "alias_row":
+        h_in = A_in[0, 0]          # a view into the orientation stack itself
+    elif ha == "default":
+        h_in = None
+    else:
+        raise ValueError(ha)
+    kw, args = {}, []
+    aa = o.get("axes_as", "kw")
+    if aa == "pos":
+        args.append(c[1])
+    elif aa == "kw":
+        kw["ref_axes"] = c[1]
+    if h_in is not None:
+        kw["hkl"] = h_in
+    return A_in, args, kw
+
+
+def _bytes(v):
+    return np.asarray(v).tobytes() if isinstance(v, np.ndarray) else repr(v)
+
+
+def call_poles(c):
+    """The poles call of case c on the public API, with the checks a pure function passes:
+    the preceding calls of the case (prelude) are made first; inputs and default arguments are
+    left untouched; the caller may overwrite the returned arrays and call again; each row of a
+    batch is what the one-orientation call returns.  -> (n x 3 array, [hygiene failures])"""
+    import copy
+    import pydrex.geometry as geo
+    o = popts(c)
+    for ax, hkl in o.get("prelude", ()):
+        try:
+            geo.poles(np.eye(3)[None], ref_axes=ax, hkl=list(hkl))
+        except Exception:  # noqa: BLE001  (illegal strings in the prelude raise; that is the point)
+            pass
+    A_in, args, kw = build_call(c)
+    snap_A, snap_h = A_in.tobytes(), _bytes(kw.get("hkl"))
+    defaults = copy.deepcopy(geo.poles.__defaults__)
+    x, y, z = geo.poles(A_in, *args, **kw)
+    n = len(A_in)
+    hyg = []
+    if not (np.shape(x) == np.shape(y) == np.shape(z) == (n,)):
+        hyg.append(f"outputs have shapes {np.shape(x)}, {np.shape(y)}, {np.shape(z)} for {n} orientations")
+        return np.stack([np.ravel(x), np.ravel(y), np.ravel(z)], axis=1), hyg
+    first = np.stack([x, y, z], axis=1)
+    if A_in.tobytes() != snap_A or _bytes(kw.get("hkl")) != snap_h:
+        hyg.append("poles modified its input arrays")
+    if geo.poles.__defaults__ != defaults:
+        hyg.append(f"poles modified its default arguments: {geo.poles.__defaults__}")
+    for t in (x, y, z):   # the caller owns the result: overwriting it must not influence the next call
+        if isinstance(t, np.ndarray) and t.flags.writeable:
+            t[...] = np.nan
+    x2, y2, z2 = geo.poles(A_in, *args, **kw)
+    second = np.stack([x2, y2, z2], axis=1)
+    if second.tobytes() != first.tobytes():
+        hyg.append("an identical second call returns different values")
+    if 1 < n <= 17:
+        tol = 1e-5 if first.dtype == np.float32 else 1e-13
+        for g in range(n):
+            xs, ys, zs = geo.poles(A_in[g:g + 1], *args, **kw)
+            one = np.array([xs[0], ys[0], zs[0]])
+            if not np.allclose(one, first[g], rtol=0, atol=tol, equal_nan=True):
+                hyg.append(f"row {g} of the batch {first[g]} differs from the one-orientation call {one}")
+                break
+    return first, hyg
+
+
 def impl(c):
     """Public API on one case -> ('OK', flat list of floats) | ('ERR', code, message)"""
     import pydrex.geometry as geo
@@ -161,6 +435,9 @@ def impl(c):
             if c[0] == "lambert":
                 X, Y = geo.lambert_equal_area(*c[1])
                 return ("OK", [float(X[0]), float(Y[0])])
+            if c[0] == "poles" and popts(c):
+                v, hyg = call_poles(c)
+                return ("OK", [float(t) for t in v.reshape(-1)], hyg, str(v.dtype))
             if c[0] == "poles":
                 x, y, z = geo.poles(c[3].copy(), ref_axes=c[1], hkl=c[2])
                 return ("OK", [float(v) for v in np.stack([x, y, z], axis=1).reshape(-1)])
@@ -178,6 +455,13 @@ def impl(c):
 def model_lines(c):
     if c[0] in ("to_spherical", "to_cartesian", "lambert"):
         return [common.model_line(c[0], [], c[1])]
+    if c[0] == "poles" and popts(c):
+        # any string: how it is read, and the result for both choices set.pop() can make
+        codes = [ord(ch) for ch in c[1]]
+        xs = list(c[3].reshape(-1)) + list(c[2])
+        return [common.model_line("axes_read", codes, []),
+                common.model_line("poles_str", [len(c[3]), 0] + codes, xs),
+                common.model_line("poles_str", [len(c[3]), 1] + codes, xs)]
     if c[0] == "poles":
         return [common.model_line("poles", [AXES.index(c[1]), len(c[3])], list(c[3].reshape(-1)) + list(c[2]))]
     _, k, axial, g, sigma, w, d, _ = c
@@ -187,11 +471,16 @@ def model_lines(c):
 
 
 def encode(c):
+    if c[0] == "malformed":
+        return {"fn": "poles", "malformed": c[1]}
     if c[0] in ("to_spherical", "to_cartesian", "lambert"):
         return {"fn": c[0], "args": [hx(x) for x in c[1]]}
     if c[0] == "poles":
-        return {"fn": "poles", "ref_axes": c[1], "hkl": [hx(x) for x in c[2]], "n": len(c[3]),
-                "orientations": [hx(x) for x in c[3].reshape(-1)]}
+        e = {"fn": "poles", "ref_axes": c[1], "hkl": [hx(x) for x in c[2]], "n": len(c[3]),
+             "orientations": [hx(x) for x in c[3].reshape(-1)]}
+        if popts(c):
+            e["variant"] = popts(c)   # input representation (see build_call) and preceding calls
+        return e
     _, k, axial, g, sigma, w, d, kind = c
     return {"fn": "point_density", "kernel": KERNELS[k], "axial": axial, "gridsteps": g, "sigma": hx(sigma),
             "weights": hx(w), "n": len(d), "data": [hx(x) for x in d.reshape(-1)], "kind": kind}
@@ -201,8 +490,9 @@ def decode(d):
     if d["fn"] in ("to_spherical", "to_cartesian", "lambert"):
         return (d["fn"], tuple(unhx(x) for x in d["args"]))
     if d["fn"] == "poles":
-        return ("poles", d["ref_axes"], np.array([unhx(x) for x in d["hkl"]]),
-                np.array([unhx(x) for x in d["orientations"]]).reshape(d["n"], 3, 3))
+        c = ("poles", d["ref_axes"], np.array([unhx(x) for x in d["hkl"]]),
+             np.array([unhx(x) for x in d["orientations"]], dtype=float).reshape(d["n"], 3, 3))
+        return c + (d["variant"],) if d.get("variant") else c
     return ("density", KERNELS.index(d["kernel"]), d["axial"], d["gridsteps"], unhx(d["sigma"]), unhx(d["weights"]),
             np.array([unhx(x) for x in d["data"]]).reshape(d["n"], 3), d.get("kind", ""))
 
@@ -239,6 +529,61 @@ def near_threshold(c):
     return bool(np.min(np.abs(P - thr)) < 1e-11)
 
 
+def string_class(sp):
+    if sp in AXES:
+        return "legal-lower"
+    if sp in SPELLINGS:
+        return "legal-upper" if sp.isupper() else "legal-mixed"
+    return "illegal"
+
+
+def compare_poles_str(chk, c, r, m_axes, m0, m1, hist):
+    """poles with any string / input representation vs poles_str of the extracted model
+    (m0, m1: the two choices set.pop() can make; m_axes: how the model reads the string)."""
+    o = popts(c)
+
+    def bump(k):
+        hist[k] = hist.get(k, 0) + 1
+    cls = string_class(c[1])
+    if cls == "illegal":
+        cls += ":" + (m_axes[1] if m_axes[0] == "ERR" else ("ambiguous-pop" if len(m_axes[1]) > 3 else "accepted"))
+    bump("poles_str:string:" + cls)
+    if cls.startswith("legal"):
+        bump("poles_str:spelling:" + c[1])
+    for k in ("family", "hkl_as", "ori_as", "axes_as"):
+        bump(f"poles_str:{k}:{o.get(k, 'array' if k == 'hkl_as' else 'c' if k == 'ori_as' else 'kw')}")
+    bump(f"poles_str:n:{len(c[3]) if len(c[3]) <= 4 else '5+'}")
+    if o.get("prelude"):
+        bump(f"poles_str:prelude_calls:{len(o['prelude'])}")
+    flat = r[1] if r[0] == "OK" else []
+    chk.note_case(repr(encode(c)), nontrivial=(r[0] == "ERR" or any(flat)), sample=None)
+    if len(chk.cov["samples"]) < 8 and hist["poles_str:string:" + cls] == 1:
+        chk.cov["samples"].append(sample_of(c, r, m0))
+    if r[0] == "OK" and r[2]:
+        return "poles is not a pure function of its arguments: " + "; ".join(r[2])
+    if m0[0] == "ERR":
+        bump("model_err:" + m0[1])
+        if m0[1] == "DivZero":   # 0/0: nan in NumPy
+            if r[0] == "OK" and (any(math.isnan(v) or math.isinf(v) for v in flat)):
+                return None
+            return f"model: zero direction (0/0), implementation: {r[:2] if r[0] == 'ERR' else flat[:6]}"
+        if r[0] == "ERR" and r[1] == m0[1]:
+            return None
+        return (f"ref_axes={c[1]!r}: the model of the pinned source raises {m0[1]}, the implementation "
+                f"{'raises ' + r[1] + ': ' + r[2] if r[0] == 'ERR' else 'returns ' + str(flat[:6])}")
+    if r[0] == "ERR":
+        return f"ref_axes={c[1]!r}: implementation raises {r[1]}: {r[2]}; model returns values"
+    rtol = 5e-6 if r[3] == "float32" else 1e-12
+    ok0, j = common.vec_close(flat, m0[1], rtol=rtol)
+    if ok0:
+        return None
+    if m1[0] == "OK" and m1[1] != m0[1] and common.vec_close(flat, m1[1], rtol=rtol)[0]:
+        return None
+    a = flat[j] if j is not None and 0 <= j < len(flat) else None
+    b = m0[1][j] if j is not None and 0 <= j < len(m0[1]) else None
+    return f"poles(ref_axes={c[1]!r}) output {j} (orientation {j // 3 if j is not None and j >= 0 else '?'}, component {j % 3 if j is not None and j >= 0 else '?'}): implementation {a!r} vs model {b!r}"
+
+
 def compare(chk, cases):
     """Differential run: public functions vs extracted model.  Returns disagreements."""
     lines, idx = [], []
@@ -257,6 +602,11 @@ def compare(chk, cases):
         key = c[0] if c[0] != "density" else f"density:{KERNELS[c[1]]}:{'axial' if c[2] else 'nonaxial'}"
         if c[0] == "poles":
             key = f"poles:{c[1]}"
+        if c[0] == "poles" and popts(c):
+            msg = compare_poles_str(chk, c, r, mres[i0], mres[i0 + 1], mres[i0 + 2], hist)
+            if msg:
+                bad.append((c, msg))
+            continue
         hist[key] = hist.get(key, 0) + 1
         flat = r[1] if r[0] == "OK" else []
         trivial = r[0] == "OK" and not any(flat)
@@ -351,21 +701,35 @@ def oracle(c):
                     if abs(X * y - Y * x) > 1e-9 or X * x + Y * y < -1e-12:
                         fails.append(f"azimuth changed at {c[1]}: image {(X, Y)}")
             elif c[0] == "poles":
-                _, ax, hkl, A = c
-                x, y, z = geo.poles(A.copy(), ref_axes=ax, hkl=hkl)
+                ax, hkl, A = c[1], np.asarray(c[2], dtype=float), np.asarray(c[3], dtype=float)
+                if not isinstance(ax, str) or ax.lower() not in AXES:
+                    return []  # not one of the six reference-axes strings (in any spelling): outside C20
+                if popts(c):
+                    # the call as recorded (spelling, input representation, preceding calls); the
+                    # property must hold for the first and for an identical second call
+                    got_all, _ = call_poles(c)
+                    got_all = np.asarray(got_all, dtype=float)
+                    tol = 1e-5 if popts(c).get("ori_as") == "f32" and popts(c).get("hkl_as") in ("f32", "alias_row") else 1e-9
+                else:
+                    x, y, z = geo.poles(A.copy(), ref_axes=ax, hkl=hkl)
+                    got_all = np.stack([x, y, z], axis=1)
+                    tol = 1e-9
                 d = np.einsum("nij,i->nj", A, hkl)
                 nd = np.linalg.norm(d, axis=1)
-                okrows = nd > 1e-12 * max(1.0, float(np.abs(A).max()) * float(np.abs(hkl).max()))
+                okrows = nd > 1e-12 * max(1.0, float(np.abs(A).max(initial=0.0)) * float(np.abs(hkl).max()))
+                okrows &= np.isfinite(nd) & (nd > 1e-140) & (nd < 1e140)   # the squared norm neither overflows nor underflows
                 u = d[okrows] / nd[okrows][:, None]
                 lm = {"x": 0, "y": 1, "z": 2}
-                up = 3 - lm[ax[0]] - lm[ax[1]]
-                got = np.stack([x, y, z], axis=1)[okrows]
-                want = np.stack([u[:, lm[ax[0]]], u[:, lm[ax[1]]], u[:, up]], axis=1)
+                a0, a1 = lm[ax[0].lower()], lm[ax[1].lower()]
+                up = 3 - a0 - a1
+                got = got_all[okrows]
+                want = np.stack([u[:, a0], u[:, a1], u[:, up]], axis=1)
                 if got.size and not np.all(np.isfinite(got)):
                     fails.append("poles are not finite")
-                elif got.size and np.abs(np.linalg.norm(got, axis=1) - 1).max() > 1e-9:
-                    fails.append("poles are not unit vectors")
-                elif got.size and np.abs(got - want).max() > 1e-9:
+                elif got.size and np.abs(np.linalg.norm(got, axis=1) - 1).max() > tol:
+                    g = int(np.abs(np.linalg.norm(got, axis=1) - 1).argmax())
+                    fails.append(f"poles are not unit vectors: ref_axes={ax!r}, orientation {g}: {got[g]}")
+                elif got.size and np.abs(got - want).max() > tol:
                     g = int(np.abs(got - want).max(axis=1).argmax())
                     fails.append(f"pole of orientation {g} is {got[g]}, the requested direction in the '{ax}' frame is {want[g]}")
             elif c[0] == "density":
@@ -416,7 +780,8 @@ def search(chk, extra=()):
             if sig in seen:
                 continue
             seen.add(sig)
-            found.append((shrink(c), fails))
+            c1 = shrink(c)
+            found.append((c1, oracle(c1) or fails))
             if len(found) >= 3:
                 break
     return found
@@ -425,7 +790,9 @@ def search(chk, extra=()):
 def shrink(c):
     if c[0] == "poles":
         for g in range(len(c[3])):
-            c1 = ("poles", c[1], c[2], c[3][g:g + 1].copy())
+            if popts(c).get("hkl_as") == "alias_row" and g > 0:
+                break   # the direction is a view of the first orientation
+            c1 = ("poles", c[1], c[2], c[3][g:g + 1].copy()) + ((popts(c),) if popts(c) else ())
             if oracle(c1):
                 return c1
     if c[0] == "density" and len(c[6]) > 4:
@@ -444,6 +811,11 @@ def run(chk):
         "(masked_where / domained true_divide and sqrt / fill_value / filled) -- checked against the implementation by this differential run",
         "hand-written Model_density.v (point_density, five kernels, poles_all over the generated one-orientation poles); tie H = this differential run",
         "np.arcsin modelled as pi/2 - arccos; np.sum/np.mean modelled as left-to-right sums; array division by zero is an error in the model and nan in NumPy",
+        "hand-written Model_poles_axes.v (str.lower on ASCII, set('xyz') - set(s) with set.pop() as the oracle parameter `pick`, the two dictionary "
+        "look-ups, columns by index over the generated k_poles_xy); tie H = this differential run over all 24 spellings, illegal strings and input "
+        "representations; tie T for the 24 spellings = the 24 generated traces proved equal (C20_poles_generated_spellings)",
+        "non-ASCII reference-axes strings (str.lower is Unicode-aware) and inputs of the wrong container/shape/dtype have no model: outcome recorded "
+        "(poles_malformed_outcomes), only 'returns finite non-unit vectors' is reported",
     ]
     chk.cov["rule"] = (
         "cases = to_spherical at the origin, on the axes (1e-8..1e8), octant boundaries, signed zeros, + random directions x 10^U(-8,8); "
@@ -451,12 +823,21 @@ def run(chk):
         "non-unit vectors (|z| > 1) and random unit vectors; poles for six reference-axes strings x 10 hkl x 1..1000 random orientations "
         "(+ non-orthonormal and singular matrices); point_density for five kernels x axial/non-axial x random/girdle/cluster data sets of 1..500 "
         "vectors x grid sizes 5..101 x sigma x scalar weights, each with a permuted and (axial) sign-flipped copy. "
+        "poles option space (own random stream, shuffled call order): all 24 case spellings of the six strings x random hkl x 1..17 orientations x "
+        "hkl given as float/int list, tuple, int/float32/strided/read-only array or a view into the orientation stack x orientations given as "
+        "C/Fortran/float32/int/strided/reversed/transposed/sub-block/read-only arrays x ref_axes positional/keyword/default; default hkl; illegal "
+        "strings (repeated letters, wrong length, other letters, whitespace; fixed list + random strings over 'xyzXYZ w'); empty stack; zero and "
+        "signed-zero hkl; magnitudes 1e-150..1e200; calls preceded by 1..3 other calls; every such call is made twice (the first result is "
+        "overwritten in between), inputs/default arguments are compared before and after, and each row of a batch (n <= 17) is compared with the "
+        "one-orientation call; a separate malformed stream (wrong container/shape/dtype, nan/inf, non-str and non-ASCII ref_axes) is recorded. "
         "distinct = distinct encoded input; non-trivial = some output is non-zero")
     bad = []
     if br.drivers.get(GROUP, 1) is None:
         cases = gen_cases(chk, chk.tier)
         bad = compare(chk, cases)
         chk.cov["traces_validated_against_impl"] = len(cases)
+        for name in run_malformed(chk):
+            bad.append((("malformed", name), f"poles({name}) returns finite vectors that are not unit vectors"))
     chk.cov["disagreements"] = len(bad)
     if ok and not bad:
         return
